@@ -164,6 +164,16 @@ CHECKS = {
         "note": "trusted: our pcapng writer for DSBs; variants beyond two simultaneous deviations are not covered",
         "technique": "deviation-bounded (k<=2) exhaustive enumeration with a byte-identity oracle",
     },
+    "C12": {
+        "category": "exploration",
+        "text": "Deviation-bounded exhaustive enumeration (k<=2) of container variants for four base captures: legacy pcap LE/BE/"
+                "nanosecond with -l, big-endian pcapng, 7 if_tsresol values (powers of 10 and of 2), 3 if_tsoffset values, 6 kinds "
+                "of unrelated block inserted at every position, option sets on SHB/IDB/EPB - all written by our own writer so that "
+                "every variant denotes exactly the same instants. Oracle: byte-identical output.",
+        "design_ref": "DESIGN.md section 5, C12",
+        "note": "trusted: our pcapng/pcap writer (mc/model/pcapio.py); instants are multiples of 1/8 s so all resolutions are exact",
+        "technique": "deviation-bounded (k<=2) exhaustive enumeration with a byte-identity oracle",
+    },
 }
 
 NOT_YET = "check not built yet in this round (planned: bounded exhaustive exploration, see DESIGN.md section 5)"
